@@ -218,7 +218,7 @@ fn vp_native_head_roundtrip_small_body() {
     // field names over the whole token alphabet (RFC 9110 5.6.2), not only letters, digits and '-'
     // (among the names a Connection field, among the values lists of option names that spell other fields of the same head: a client
     // hands every field to the caller, the ones a forwarding proxy would drop included)
-    let names = ["X-A", "x-b", "Set-Cookie", "Transfer-Encoding", "x_under_score", "A^b", "!#$%&'*+-.^_`|~09Az", "Connection", "Keep-Alive"];
+    let names = ["X-A", "x-b", "Set-Cookie", "Transfer-Encoding", "x_under_score", "A^b", "!#$%&'*+-.^_`|~09Az", "Connection", "Keep-Alive", "Server", "Server-Timing"];   // (a name that begins with the whole of another)
     let values: [&[u8]; 15] = [b"v", b"", b"a b", b"\xc3\xa9", b"a\n b", b"  padded  ", b"1, 2", b"\n foo", b"foo\n", b" \n ", b"\n\tfoo \n bar\n", b"a\n\nb", b"keep-alive", b"X-A, x-b, set-cookie", b"close, Keep-Alive, x_under_score"];
     let mut cases = 0u64;
     for status in [100u16, 200, 404, 599, 999] {
